@@ -310,6 +310,25 @@ example :
       | .ok (g, some _) => g.ops.length
       | _ => 0) = 3 := by decide
 
+/-- non-vacuity of the two theorems about failing runs: a rename that fails (the ninth operation) — the hypotheses hold
+    (`os.Stat` answers for the empty file system), what was performed is the first eight operations of the model's nine, and an
+    error comes back -/
+example :
+    let failNinth : List Go.GoFOp → Go.GoFOp → Go.GoErr := fun h _ => if h.length = 8 then some (b!"no space") else none
+    let ext : Go.Ext := { parseFloat := fun _ => (0, none), rowValues := [[b!"1"]], ioErr := failNinth, osStat := fun _ => ({}, some []) }
+    let o : Gen.Outfile.Outfile := ⟨b!"/d/o", false⟩
+    let q : Gen.Outfile.Query := { Select := [⟨b!"a"⟩], Limit := -1, Outfile := some o, RawQuery := b!"q" }
+    GenOutfile.StatAgrees ext [] ∧ (∀ row ∈ ext.rowValues, row.length = q.Select.length) ∧
+    (match Gen.Outfile.GroupSet.WriteResult ext {} q true with
+      | .ok (g, some _) => g.ops.filterMap GenOutfile.toFOp == (writeResultOps [] (GenOutfile.reqOf ext q o true)).take 8
+          && (writeResultOps [] (GenOutfile.reqOf ext q o true)).length == 9
+      | _ => false) = true := by
+  refine ⟨fun p => ?_, ?_, ?_⟩
+  · show (some [] : Go.GoErr) ≠ none
+    intro h; cases h
+  · decide
+  · decide
+
 /-- non-vacuity: a replace-mode request, two columns, one row: the translated function records the eight writes between
     the two renames -/
 example :
